@@ -11,8 +11,8 @@ import PdshVerif.Hostlist.Iter
 namespace PdshVerif.Hostlist
 
 /-- `hostlist_push(hl, hosts)`: `.null _ f` here means: the process exited in `lsd_fatal_error` -/
-def hlPush (h : HL) (s : Str) : Outcome HL :=
-  match create s with
+def hlPush (cfg : Cfg) (h : HL) (s : Str) : Outcome HL :=
+  match create cfg s with
   | .ok n => .ok (pushList h n)
   | .null e f => if f = Fatal.none then .ok h else .null e f
   | .ub w => .ub w
@@ -21,19 +21,19 @@ def hlPush (h : HL) (s : Str) : Outcome HL :=
 /-- `wcoll_expand`: `while ((hosts = hostlist_shift(hl))) hostlist_push(new, hosts)`;
     every successful shift decrements `nhosts`, so `fuel = nhosts + 1` rounds suffice.
     (`old` is carried as the list of its range records and its counter, see `shiftL`.) -/
-def wcollExpandLoop : Nat → List HRange → Int → HL → Outcome HL
+def wcollExpandLoop (cfg : Cfg) : Nat → List HRange → Int → HL → Outcome HL
   | 0, _, _, new => .ok new
   | f + 1, rs, nh, new =>
     if nh > 0 && rs.isEmpty then .ub "hostlist_shift: no range record" else
     match shiftL rs nh with
     | (none, _, _) => .ok new
     | (some host, rs', nh') =>
-      match hlPush new host with
-      | .ok new' => wcollExpandLoop f rs' nh' new'
+      match hlPush cfg new host with
+      | .ok new' => wcollExpandLoop cfg f rs' nh' new'
       | o => o
 
-def wcollExpand (h : HL) : Outcome HL :=
-  wcollExpandLoop (h.nhosts.toNat + 1) h.ranges.toList h.nhosts HL.new
+def wcollExpand (cfg : Cfg) (h : HL) : Outcome HL :=
+  wcollExpandLoop cfg (h.nhosts.toNat + 1) h.ranges.toList h.nhosts HL.new
 
 /-- is this comma-word a plain target word for `wcoll_arg_process` (no `-x`-style exclusion, no
     `^file`, no `/regex/`, no `rcmd_type:` / `user@` part)?  Other words are outside C01/C15. -/
@@ -44,22 +44,22 @@ def plainWord (w : Str) : Bool :=
 
 /-- `wcoll_args_process` restricted to plain words: `.ok none` = a word outside the modelled
     domain was met -/
-def cliPushWords (h : HL) : List Str → Outcome (Option HL)
+def cliPushWords (cfg : Cfg) (h : HL) : List Str → Outcome (Option HL)
   | [] => .ok (some h)
   | w :: ws =>
     if !plainWord w then .ok none
     else
-      match hlPush h (w.dropWhile isSpace) with
-      | .ok h' => cliPushWords h' ws
+      match hlPush cfg h (w.dropWhile isSpace) with
+      | .ok h' => cliPushWords cfg h' ws
       | .null e f => .null e f
       | .ub s => .ub s
       | .diverge => .diverge
 
 /-- the working collective pdsh ends up with for `-w arg` (before `opt_verify`) -/
-def cliTargets (arg : Str) : Outcome (Option HL) :=
-  match cliPushWords HL.new (tokens [','] arg) with
+def cliTargets (cfg : Cfg) (arg : Str) : Outcome (Option HL) :=
+  match cliPushWords cfg HL.new (tokens [','] arg) with
   | .ok (some h) =>
-    match wcollExpand h with
+    match wcollExpand cfg h with
     | .ok h' => .ok (some h')
     | .null e f => .null e f
     | .ub s => .ub s
